@@ -49,6 +49,7 @@ type event struct {
 	id   string         // CALL
 	call callFunc       // CALL
 	pub  mqttref.Packet // BPUB
+	pubs []mqttref.Packet // BBURST
 	ms   int            // ADV
 }
 
@@ -285,6 +286,19 @@ func parseE(text string) (ev event, err error) {
 		if ev.pub, err = mqttref.ParseSpec(arg); err == nil && ev.pub.Type != mqttref.PUBLISH {
 			err = fmt.Errorf("BPUB takes a PUBLISH")
 		}
+	case "BBURST":
+		// several PUBLISHes separated by " | ", written back to back
+		for _, spec := range strings.Split(arg, " | ") {
+			var p mqttref.Packet
+			if p, err = mqttref.ParseSpec(spec); err != nil {
+				break
+			}
+			if p.Type != mqttref.PUBLISH {
+				err = fmt.Errorf("BBURST takes PUBLISHes")
+				break
+			}
+			ev.pubs = append(ev.pubs, p)
+		}
 	case "ADV":
 		ev.ms, err = number(arg, 1<<31-1)
 	default:
@@ -417,6 +431,8 @@ type link struct {
 	faults   [2]string  // c2g, g2c
 	count    [2]int     // datagrams written so far per direction
 	lossless bool       // wind-down: deliver everything
+	held     bool       // BBURST: datagrams of the client are kept back ...
+	pending  [][]byte   // ... here, until release (in the order written)
 }
 
 const (
@@ -449,12 +465,39 @@ func (l *link) transfer(dir int, to *memconn.Datagram, b []byte, tr *trace) {
 	}
 	l.count[dir]++
 	tr.obs("%s %c %s", dirNames[dir], decision, vh.Hex(b))
+	n := 0
 	switch decision {
 	case 'd':
-		to.Inject(b)
+		n = 1
 	case '2':
-		to.Inject(b)
-		to.Inject(b)
+		n = 2
+	}
+	for ; n > 0; n-- {
+		if dir == c2g && l.held {
+			l.pending = append(l.pending, b)
+		} else {
+			to.Inject(b)
+		}
+	}
+}
+
+// hold keeps the client's datagrams back (logged when written, delivered at
+// release): the gateway session handles a burst of broker packets before any
+// answer of the client to the first of them arrives.
+func (l *link) hold() {
+	l.mu.Lock()
+	l.held = true
+	l.mu.Unlock()
+}
+
+func (l *link) release() {
+	l.mu.Lock()
+	l.held = false
+	p := l.pending
+	l.pending = nil
+	l.mu.Unlock()
+	for _, b := range p {
+		l.gw.Inject(b)
 	}
 }
 
@@ -748,6 +791,13 @@ func runHistory(h history, tr *trace) {
 			spawn(func() { tr.obs("RET %s %s", ev.id, classify(ev.call(c, handler))) })
 		case "BPUB":
 			br.publish(ev.pub)
+		case "BBURST":
+			lk.hold()
+			for _, p := range ev.pubs {
+				br.publish(p)
+			}
+			synctest.Wait()
+			lk.release()
 		case "ADV":
 			time.Sleep(time.Duration(ev.ms) * time.Millisecond)
 		}
